@@ -234,6 +234,18 @@ def _struct_cases(tier):
                          (([-1], [0]), ("n", "k"), ("k", "m")), (([1, 0], [0, 1]), ("l", "k"), ("k", "l", "m")), (([2, 0], [0, 1]), ("l", "n", "k"), ("k", "l", "m")), ((1, 0), ("n", "k"), ("k", "m")),
                          (0, (), ("m",)), (0, ("n",), ())):
         C.append((f"tensordot(axes={axes}){sa}x{sb}", "tensordot", [A(*sa), A(*sb)], {"axes": axes}, (0, 1)))
+    for sub, shapes in (("ij,jk->ik", [("i", "j"), ("j", "k")]), ("ij,ij->", [("i", "j"), ("i", "j")]), ("ii->i", [("i", "i")]), ("ij->ji", [("i", "j")]), ("i,i", [("i",), ("i",)]),
+                        ("ij,j", [("i", "j"), ("j",)]), ("...ij,...jk->...ik", [("b", "i", "j"), ("j", "k")]), ("...ij,...jk->...ik", [("i", "j"), ("b", "c", "j", "k")]),
+                        ("i...,i...->...", [("i", "a"), ("i", "a")]), ("...i,...i->...", [("a", "i"), ("i",)]), ("i...j,j->i...", [("i", "a", "j"), ("j",)]),
+                        ("ij,jk,kl->il", [("i", "j"), ("j", "k"), ("k", "l")]), ("ijk->kji", [("i", "j", "k")]), ("ij->", [("i", "j")]), ("ij->j", [("i", "j")]), ("i,j->ij", [("i",), ("j",)]),
+                        ("...->...", [("a", "b")]), ("a...b,b...->a...", [("a", "c", "b"), ("b", "c")]), ("...a,...a->...", [("a",), ("c", "a")]), ("ij...,jk...->ik...", [("i", "j"), ("j", "k", "c", "d")])):
+        C.append((f"einsum('{sub}'){shapes}", "einsum", [("lit", sub)] + [A(*sh) for sh in shapes], {}, tuple(range(1, len(shapes) + 1))))
+    for lab, spec_ in (("list-form", [A("i", "j"), ("lit", [0, 1]), A("j", "k"), ("lit", [1, 2]), ("lit", [0, 2])]),
+                       ("list-form ellipsis-mid", [A("i", "c", "j"), ("lit", [0, Ellipsis, 1]), A("j", "k"), ("lit", [1, 2]), ("lit", [0, Ellipsis, 2])]),
+                       ("list-form ellipsis-mid bcast", [A("i", "j"), ("lit", [0, Ellipsis, 1]), A("i", "c", "j"), ("lit", [0, Ellipsis, 1]), ("lit", [0, Ellipsis])]),
+                       ("list-form ellipsis-tail bcast2", [A("i", "j"), ("lit", [0, 1, Ellipsis]), A("j", "k", "c", "d"), ("lit", [1, 2, Ellipsis]), ("lit", [0, 2, Ellipsis])]),
+                       ("list-form ellipsis-head bcast2", [A("i", "j"), ("lit", [Ellipsis, 0, 1]), A("c", "d", "j", "k"), ("lit", [Ellipsis, 1, 2]), ("lit", [Ellipsis, 0, 2])])):
+        C.append((f"einsum({lab})", "einsum", spec_, {}, (0, 2)))
     C.append(("tensordot(default)", "tensordot", [A("n", "k", "l"), A("k", "l", "m")], {}, (0, 1)))
     for axes in (None, (1, 0), (-1, 0), (0, -1)):
         C.append((f"transpose({axes})", "transpose", [A("a", "b"), ("lit", axes)], {}, (0,)))
